@@ -244,6 +244,23 @@ CLAIMED = {
         '(Python-ast walk of girwriter.py, regex over girparser.c); stub lexer and stub include GIRs; docs/gir-1.2.rnc is not consulted. '
         'Not generated: unions with function-pointer members (F14), gunichar constants (F16), type structure (C06).',
    ref='DESIGN.md §4 C15'),
+ 'C03': dict(
+   technique='Coq proof over a model of identifier-level annotation application (block keys, tags, target annotations, rename-to as a state machine) + in-Coq correspondence through the real comment parser, MainTransformer and GIRWriter',
+   text='Theorems (Coq, axiom-free): a block whose key differs from an element\'s key changes nothing about that element wherever it '
+        'stands in the block list, the element\'s own block is the one applied and without one it carries no identifier-level data '
+        '(C03_other_block_is_inert, C03_own_block); Class:prop / Class::sig / Struct.field keys determine owner and member and a '
+        'property key is never a signal key (C03_keys_injective, C03_property_never_signal); Since/Deprecated/Stability/skip/description '
+        'become version, deprecation, stability, introspectable and doc (C03_tags); each target annotation appears as the corresponding '
+        'GIR attribute on the kinds of element it belongs to and on no other (C03_target_annotations); after ANY sequence of rename-to '
+        'requests every shadows has its shadowed-by and vice versa, in the data and in what the writer shows (C03_rename_to_pairs, '
+        'invariant by induction over the requests; refuted for the check as found by C03_rename_to_refuted_before_fix, fix faa1326). '
+        'Tie: generated worlds (functions, records with fields, enumeration, constants, a class with properties and signals) with '
+        'comment blocks in shuffled order go through GtkDocCommentBlockParser, Transformer, GDumpParser, MainTransformer, '
+        'IntrospectablePass and GIRWriter; doc, version, deprecation, stability, introspectable, attributes, kind-specific attributes '
+        'of every element and the shadows pairs are compared with Model.C03 inside Coq; crisp clauses are also judged directly.',
+   note='Trusted: Coq kernel+VM; stub lexer; dump given as XML. Not generated: (method)/(constructor) role selection (C04), '
+        'virtual-function blocks and invoker inheritance (the model has vfunc_meta, not yet tied), moved-to copies.',
+   ref='DESIGN.md §4 C03'),
 }
 
 PLANNED = {}
